@@ -105,7 +105,30 @@ pub fn inputs_c04(r: &mut Rng, n: usize, _tier: &str, out: &mut dyn Write) {
             1 => small_off(r),
             _ => partner(r, e),
         };
-        match r.below(14) {
+        match r.below(17) {
+            14 | 15 => {
+                // Epoch - Epoch over ALL nine scales, at least one operand in ET or TDB, within +/- 10 000 years:
+                // observed together with the right operand re-expressed in the left operand's scale
+                const ALL9: [&str; 9] = ["TAI", "TT", "UTC", "GPST", "GST", "BDT", "QZSST", "ET", "TDB"];
+                let dy = *r.pick(&["ET", "TDB"]);
+                let other = *r.pick(&ALL9);
+                let (ta, tb) = if r.chance(1, 2) { (dy, other) } else { (other, dy) };
+                let inst = (r.range_i64(-3_600_000, 3_600_000) as i128) * DAY + small_off(r); // TAI count
+                let a = inst - ref_off(ta);
+                let b = if r.chance(1, 2) { inst + small_off(r) - ref_off(tb) } else { (r.range_i64(-3_600_000, 3_600_000) as i128) * DAY + r.below(DAY as u64) as i128 - ref_off(tb) };
+                writeln!(out, "ediff9 {}:{} {}:{}", dstr(a), ta, dstr(b), tb).unwrap()
+            }
+            16 => {
+                // the algebraic identities in the dynamical scales (same-scale arithmetic on the elapsed time)
+                let ts2 = *r.pick(&["ET", "TDB"]);
+                let e2 = epoch_total(r, ts2);
+                if r.chance(1, 2) {
+                    writeln!(out, "eroundtrip {}:{} {}", dstr(e2), ts2, dstr(d)).unwrap()
+                } else {
+                    let f = if r.chance(1, 2) { e2 + small_off(r) } else { epoch_total(r, ts2) };
+                    writeln!(out, "eaddiff {}:{} {}:{}", dstr(e2), ts2, dstr(f), ts2).unwrap()
+                }
+            }
             0 | 1 => writeln!(out, "eadd {}:{} {}", dstr(e), ts, dstr(d)).unwrap(),
             2 | 3 => writeln!(out, "esub {}:{} {}", dstr(e), ts, dstr(d)).unwrap(),
             4 | 5 => {
@@ -118,8 +141,13 @@ pub fn inputs_c04(r: &mut Rng, n: usize, _tier: &str, out: &mut dyn Write) {
             7 => writeln!(out, "esubu {}:{} {}", dstr(e), ts, unit_name(r)).unwrap(),
             8 => {
                 // float seconds that are exact integers
-                let k: i64 = match r.below(7) {
+                let k: i64 = match r.below(8) {
                     0 => r.range_i64(-100, 100),
+                    // anywhere in (and a little beyond) the range of a Duration; a few far beyond i64 nanoseconds
+                    7 => match r.below(4) {
+                        0 => *r.pick(&[i64::MAX, i64::MIN, 9_223_372_036, 9_223_372_037, -9_223_372_037, 4_611_686_019, 315_576_000_001]),
+                        _ => r.range_i64(-104_000_000_000_000, 104_000_000_000_000),
+                    },
                     1 => r.range_i64(-4_000_000_000, 4_000_000_000),
                     2 => r.range_i64(-9_007_199, 9_007_199),
                     3 => *r.pick(&[0i64, 1, -1, 86400, -86400, 9_007_199, -9_007_199]),
@@ -636,6 +664,10 @@ pub fn exec(op: &str, a: &[&str]) -> Option<String> {
         "eadd" => oke(s2e(a[0]) + s2d(a[1])),
         "esub" => oke(s2e(a[0]) - s2d(a[1])),
         "ediff" => okd(s2e(a[0]) - s2e(a[1])),
+        "ediff9" => {
+            let (x, y) = (s2e(a[0]), s2e(a[1]));
+            Some(format!("ok {} {}", d2s(x - y), e2s(y.to_time_scale(x.time_scale))))
+        }
         "eaddu" => oke(s2e(a[0]) + s2u(a[1])),
         "esubu" => oke(s2e(a[0]) - s2u(a[1])),
         "eaddf" => oke(s2e(a[0]) + s2f(a[1])),
